@@ -8,7 +8,7 @@
     not the property; the general [_partial] statements they sample are
     written out in the comments). *)
 From InvokeVerif Require Import Model.CollModel Spec.C10Spec Corr.C10Corr
-     Proofs.CollStrings Proofs.C17_path Proofs.C10_build Proofs.C10_names.
+     Proofs.CollStrings Proofs.C17_path Proofs.C10_build Proofs.C10_names Proofs.C10_flat.
 
 (** Underscore/dash normalisation is consistent: idempotent, the later of two
     normalisations wins (so a name passed down through collections with
@@ -68,10 +68,26 @@ Theorem C10_cli_iff_lookup_refuted_binding_alias :
                 listing_ok c 2 (model_rows c 2) = false.
 Proof. exact refuted_binding_alias. Qed.
 
+(** Proved form, for ALL flat namespaces (a root collection holding any number
+    of tasks with any number of declared aliases, no sub-collections) and ALL
+    tokens: the token is accepted by the parser built from [to_contexts] iff it
+    is a canonical name that [name in collection] resolves; an accepted token
+    runs (through the executor's second lookup of the context's primary name)
+    the very task [collection[token]] returns; anything else runs nothing.
+    Guard [flat_guard]: no sub-collections; task names and declared aliases
+    pairwise distinct and canonical; the alias table holds exactly the
+    declared aliases (this excludes F-C10b).  What is missing from full
+    strength: sub-collections (sampled by the bounded sweep below; F-C10a
+    lives there) and binding-level aliases (F-C10b, refuted above). *)
+Theorem C10_cli_iff_lookup_partial : forall cn tasks aliases dflt ad cfg n,
+  flat_guard (Coll cn tasks aliases [] dflt ad cfg) = true ->
+  name_ok ad n (model_nobs (Coll cn tasks aliases [] dflt ad cfg) n) = true.
+Proof. intros. apply flat_names_agree. assumption. Qed.
+
 (** Inside the guards (clean script, no default sub-collection below the root,
     no binding-level aliases) the agreement holds on every tree of the sweep:
     128 trees (root > [top] + sub > [my_task (own alias?, default?)] + in_ner >
-    [deep]; every auto-dash combination; root default on/off) x 45 candidate
+    [deep]; every auto-dash combination; root default on/off) x 48 candidate
     tokens in every spelling.  A TEST: the general statement
       forall s c n, build s = Ok c -> script_clean s = true ->
         no_dsub_below true c = true -> no_binding_aliases c = true ->
@@ -79,7 +95,7 @@ Proof. exact refuted_binding_alias. Qed.
     is not proved. *)
 Theorem C10_cli_iff_lookup_bounded_128 :
   names_sweep (sweep_scripts false) = true /\
-  List.length (sweep_scripts false) = 128 /\ List.length names_vocab = 45.
+  List.length (sweep_scripts false) = 128 /\ List.length names_vocab = 48.
 Proof. split; [exact names_bounded | split; apply sweep_size]. Qed.
 
 (** Listings: (F-C10c) the json listing shows own names, not the names bound; *)
@@ -139,3 +155,13 @@ Proof.
   repeat split; try (vm_compute; reflexivity).
   eexists. repeat split; vm_compute; reflexivity.
 Qed.
+
+(** Non-vacuity of the flat guard: a built collection with underscored names,
+    two declared aliases on one task and a default task. *)
+Example C10_example_flat_guard :
+  exists c,
+    build (ISub None true (Node [])
+                [ITask (mkTask 1 "my_task" ["mt"; "m_t"] false) None [] None;
+                 ITask (mkTask 2 "other" [] true) None [] None] None false) = Ok c /\
+    flat_guard c = true /\ contains c "m-t" = Ok true /\ contains c "m_t" = Ok true.
+Proof. eexists. split; [vm_compute; reflexivity|]. repeat split; vm_compute; reflexivity. Qed.
